@@ -533,6 +533,7 @@ pub fn run(id: &'static str, tier: Tier, seed: u64) -> i32 {
         exhaustive_note: "all programs of the listed spaces, all signal lists listed, all device answer histories listed".into(),
         e1: false,
     };
+    total.merge(crate::props::c13::api_use_part(&deadline));
     finish(meta, total, started)
 }
 
